@@ -840,4 +840,31 @@ def eval_c17(batches, tier, seed, known, info):
     return out
 
 
-EVALUATORS.update({'C17': eval_c17, 'C11': eval_c11, 'C12': eval_c12, 'C13': eval_c13, 'C15': eval_c15, 'C18': eval_c18})
+def eval_c19(batches, tier, seed, known, info):
+    """validation of the Lean bit-level conversions against Go's own conversions (boundary set + random patterns)"""
+    out = {'evaluations': 0, 'violations': [], 'tie_breaks': [], 'distinct': [], 'samples': [], 'coverage': {}, 'known': {}}
+    n = 4000 if tier == 'quick' else 200000
+    rc, cases, err = pc.sh([pc.BIN, 'casts', str(seed), str(n)])
+    lines = [l for l in cases.splitlines() if l.strip()]
+    if not batches:
+        return out
+    p = subprocess.run([pc.MODEL, batches[0]['dir'] + '/case.json'], input=cases, text=True, capture_output=True, timeout=1800)
+    res = [l for l in p.stdout.splitlines() if l.strip()]
+    bad = 0
+    for l, r in zip(lines, res):
+        c = json.loads(l)
+        out['evaluations'] += 1
+        got = json.loads(r).get('bits')
+        if got != c['want']:
+            bad += 1
+            if len(out['tie_breaks']) < 3:
+                out['tie_breaks'].append({'diff': f"conversion {c['from']}->{c['to']} of {c['bits']}: Go gives {c['want']}, Lean model gives {got}"})
+    if len(res) != len(lines):
+        out['tie_breaks'].append({'diff': f'model answered {len(res)} of {len(lines)} conversion cases'})
+    out['distinct'] = [f'cast{i}' for i in range(len(lines))]
+    out['samples'] = [json.loads(l) for l in lines[:2]]
+    out['coverage'] = {'conversion_cases_against_go': len(lines), 'conversion_disagreements': bad}
+    return out
+
+
+EVALUATORS.update({'C19': eval_c19, 'C17': eval_c17, 'C11': eval_c11, 'C12': eval_c12, 'C13': eval_c13, 'C15': eval_c15, 'C18': eval_c18})
